@@ -94,7 +94,54 @@ def _gen_pattern(rng, res):
       T += rng.choice([1, 3, 7])
     ops.append(['S', nid[0], T])
     return nid[0]
-  kind = rng.choice(['storm', 'storm', 'far', 'far', 'drain', 'coincide', 'coincide'])
+  kind = rng.choice(['storm', 'storm', 'far', 'far', 'drain', 'coincide', 'coincide', 'jump', 'sametick'])
+  if kind == 'jump':
+    # the clock is found far ahead (the process was stalled, or the time source stepped): several distinct
+    # deadlines are overdue at once; all of them run at that instant, nothing else needs to happen
+    n = rng.randint(2, 5)
+    for _ in range(n):
+      S(unit * rng.randint(2, 30))
+    if rng.random() < 0.5:
+      ops.append(['adv', t + unit])
+      t += unit
+    else:
+      ops.append(rng.choice([['q'], ['step', 3], ['step', 1]]))      # the worker parks on the first deadline (or not yet)
+    t += unit * rng.choice([31, 40, 100])
+    ops.append(['jclk', t])
+    ops.append(['q'])
+    if rng.random() < 0.5:
+      S(unit * rng.randint(1, 5))
+      S(unit * rng.randint(6, 9))
+      ops.append(['q'])
+      t += unit * 12
+      ops.append(['jclk', t])
+      ops.append(['q'])
+    t += unit * 50
+    ops.append(['adv', t])
+    t += 4000000
+    ops.append(['adv', t])
+    return {'res': res, 'ops': ops}
+  if kind == 'sametick':
+    # several actions in one tick, the earlier ones do not return at once (they sleep, or end in an exception,
+    # incl. a BaseException): the later ones still start when the clock reaches the tick
+    d = unit * rng.randint(3, 8)
+    m = rng.randint(2, 4)
+    for j in range(m):
+      nid[0] += 1
+      T = t + d + (rng.randint(1, unit - 1) if res else 0)
+      how = rng.choice(['sleep', 'sleep', 'raise', 'raiseb', None]) if j < m - 1 else None
+      ops.append(['S', nid[0], T] + ([how, unit * rng.choice([3, 50, 400])] if how else []))
+      if not res:
+        d += 0
+    if rng.random() < 0.4:
+      S(d + unit * 2)
+    t += d + unit * 2
+    ops.append(['adv', t])
+    t += unit * 500
+    ops.append(['adv', t])
+    t += 4000000
+    ops.append(['adv', t])
+    return {'res': res, 'ops': ops}
   if kind == 'coincide':
     # The clock reaches the head's deadline and, inside the very loop iteration in which the worker's
     # timer comes due, other timer-driven code schedules / cancels first (Schedule of an earlier, by then
@@ -222,6 +269,10 @@ def cases(prop, tier, seed):
     out.append(_gen_pattern(rng, [10, 0, 250, 1000][i % 4]))
   for i in range(150 if tier == 'quick' else 3000):
     sc = _gen_pattern(rng, 1000) if i % 2 else _gen_script(rng, 1000)
+    while any(o[0] == 'jclk' for o in sc['ops']):
+      # forced clock jumps are not combined with the low-resolution clock (it re-synchronises over several of its
+      # own ticks after a jump; the pairing is exercised with clocks that advance through the timers)
+      sc = _gen_pattern(rng, 1000)
     sc['lowres'] = 1
     sc['phase'] = rng.choice([0, 100, 370, 500, 900, 990])
     out.append(sc)
@@ -262,15 +313,24 @@ def run_case(script):
   def now_ms():
     return int(round((clock() - EPOCH) * 1000))
 
-  def action(i):
+  def action(i, how=None, arg=0):
     def run():
+      # the action has started: that is the "run" the property speaks of; what it does next is its own business
       ev.append({'e': 'R', 'id': i, 't': now_ms()})
+      if how == 'sleep':
+        import gevent
+        gevent.sleep(arg / 1000.0)
+      elif how == 'raise':
+        raise ValueError('scripted failure of action %d' % i)
+      elif how == 'raiseb':
+        import gevent
+        raise gevent.Timeout(0.001)        # a BaseException
     return run
 
   for op in script['ops']:
     k = op[0]
     if k == 'S':
-      cancels[op[1]] = tq.Schedule(EPOCH + op[2] / 1000.0, action(op[1]))
+      cancels[op[1]] = tq.Schedule(EPOCH + op[2] / 1000.0, action(op[1], *op[3:5]))
       ev.append({'e': 'S', 'id': op[1], 'T': op[2], 't': now_ms()})
     elif k == 'C':
       cancels[op[1]]()
@@ -279,6 +339,9 @@ def run_case(script):
       loop.step(op[1])
     elif k == 'stept':
       loop.step_timer()      # a timer that is due fires before the queued callbacks (same loop iteration)
+    elif k == 'jclk':
+      # the clock is found ahead of timers that are still pending (the process was stalled): they fire late
+      loop._now = max(loop._now, EPOCH + op[1] / 1000.0)
     elif k == 'clk':
       loop.advance_to(EPOCH + op[1] / 1000.0)
     elif k == 'adv':
